@@ -253,6 +253,18 @@ P("C16", "string_stream content equals the concatenation of everything appended"
   assumptions=["appending a range of the stream's own storage to itself is not generated", "wide-text arguments are valid (a throwing insertion is C18's subject)"],
   dbits={"quick": 22, "thorough": 25})
 
+P("C18", "a failed operation leaves its target and its arguments unchanged", "failure",
+  level_text=("runtime monitoring: ~110 throwing entry points (assignment, set, +=, +, constructors with rvalue arguments, free converters, to_latin_1(false), at(), hex/base64 decode, ST::format/writef with bad "
+              "format strings / missing arguments / invalid results, string_stream << wide text and to_string, istream >>) are driven with malformed UTF-8/16/32, invalid code points, bad hex/base64 and bad format strings, "
+              "enumerated over target size class x argument size x damage position, under ASan+UBSan; after catching the exception every watched target and argument (lvalue and rvalue) is compared with the value captured "
+              "before the call, the allocation registry is checked for allocations that survived the failed call, and the objects are used again"),
+  technique="runtime monitoring with before/after value snapshots, exception-type monitor and allocation-registry leak check under ASan+UBSan (enumerated fault table)",
+  rule=("a case is one cell (target length, argument length, damage position) running every scenario once with random contents; distinct counts the cells x repetitions; evaluations count failing calls and their checks; nothing trivial"),
+  assumptions=["FILE*/ostream sinks are incremental: only string-like targets and the arguments are held to 'unchanged'",
+               "known finding K1: ST::format with an rvalue string argument moves it into the formatter closure before parsing (recorded, printed as KNOWN-FINDING)"],
+  exhaustive={"quick": "scenario table x target length {0,5,15,16,17,40} x argument length {3,20,60} x damage at {start,middle,end}", "thorough": "the same table, 200 random fillings per cell"},
+  dbits={"quick": 20, "thorough": 22})
+
 _PENDING = "check not registered yet in this revision of /verif (harness under construction; nothing is claimed)"
 for _p in ["C%02d" % i for i in range(1, 21)]:
     if _p not in PROPS:
